@@ -177,3 +177,16 @@ PROPS["C07"] = dict(
     assumptions=["denomination universe without duplicates; burn address != burn module account; locked <= balance at the burn address"],
     note="theorems are about the code after fix 43012583 (F11); burnEndBlockOld with a decide-checked witness shows the unrepaired behaviour",
 )
+
+PROPS["C08"] = dict(
+    module="Panacea.Properties.C08",
+    obligations=["Panacea.C08.rebuild_sorted", "Panacea.C08.did_import_export", "Panacea.C08.import_get",
+                 "Panacea.C08.entry_roundtrip", "Panacea.C08.aol_table_import_export",
+                 "Panacea.C18.string_roundtrip_admitted"],
+    streams=[dict(name="genesis", quick=40, thorough=600, thorough_seeds=3)],
+    trusted=["hand-written Lean model Panacea/Model/Genesis.lean of x/aol and x/did Export/InitGenesis, tied by the genesis stream: histories over all three modules on a real app; the custom modules' genesis is exported twice (byte-equal), validated with ModuleBasics.ValidateGenesis, imported into a fresh application through InitChain, re-exported (byte-equal), and the history continues on the new application with all dumps and queries compared",
+             "the JSON/jsonpb codecs and the PNFT import path are exercised by the stream only (partial)"] + AOL_TRUSTED[2:],
+    assumptions=["tables sorted with keys that are canonical encodings of admitted tuples (CountInv / the validators) for the AOL identity; AddrCodec.Lawful",
+                 "known finding F15: free-text strings with invalid UTF-8 are altered by the JSON export"],
+    note="theorems about the code after fix a105331c (F10)",
+)
